@@ -12,7 +12,9 @@
 //                (--used all: all 320 used shapes; --used near: the 11 neighbouring / extreme shapes), plus
 //                every-cell-maximal-length cards for the extreme shapes.
 //   vtmf         VTMF_Card (all ordered pairs of the boundary alphabet), VTMF_CardSecret (all alphabet values), fresh + used.
-//   stack        TMCG_Stack<VTMF_Card> and TMCG_Stack<TMCG_Card>: sizes 1..64, 511, 512 (x card shapes, see --shapes),
+//   stack        TMCG_Stack<VTMF_Card> and TMCG_Stack<TMCG_Card>: sizes 1..64, 511, 512 x card shapes {1x1, 2x8, 3x3, 32x10 (for
+//                n <= 4, 64, 512), mixed (card i is (i mod 32 + 1) x (i mod 10 + 1))} (--shapes few); thorough adds all 320 card
+//                shapes for the sizes 1..16, 32, 48, 64, 512 (--shapes all --sizes sparse),
 //                TMCG_OpenStack -> TMCG_Stack -> text -> TMCG_Stack -> TMCG_OpenStack (the open stack has no exporter of its own)
 //   stacksecret  TMCG_StackSecret<VTMF_CardSecret> and <TMCG_CardSecret>: sizes 1..64, 511, 512; ALL permutations for
 //                sizes <= 5, identity / reversal / rotation / seeded permutation above.
@@ -454,9 +456,16 @@ static void fam_vtmf()
 }
 
 // =================================================================== stacks
+// --sizes full: 1..64, 511, 512;  --sizes sparse (used together with --shapes all): 1..16, 32, 48, 64, 512
 static std::vector<size_t> stack_sizes()
 {
 	std::vector<size_t> S;
+	if (AR->get("sizes", "full") == "sparse")
+	{
+		for (size_t n = 1; n <= 16; n++) S.push_back(n);
+		S.push_back(32), S.push_back(48), S.push_back(64), S.push_back(TMCG_MAX_CARDS);
+		return S;
+	}
 	for (size_t n = 1; n <= 64; n++) S.push_back(n);
 	S.push_back(TMCG_MAX_CARDS - 1), S.push_back(TMCG_MAX_CARDS);
 	return S;
@@ -922,13 +931,13 @@ int main(int argc, char **argv)
 	{
 		if (enc == "" || enc == "vtmf") fam_stack_of<VTMF_Card>("vtmf", shapes);
 		if (enc == "" || enc == "qr") fam_stack_of<TMCG_Card>("qr", shapes);
-		rep.bound = "sizes 1..64, 511, 512; QR card shapes: " + shapes;
+		rep.bound = std::string("sizes ") + (A.get("sizes", "full") == "sparse" ? "1..16, 32, 48, 64, 512" : "1..64, 511, 512") + "; QR card shapes: " + shapes;
 	}
 	else if (family == "stacksecret")
 	{
 		if (enc == "" || enc == "vtmf") fam_stacksecret_of<VTMF_CardSecret>("vtmf", shapes);
 		if (enc == "" || enc == "qr") fam_stacksecret_of<TMCG_CardSecret>("qr", shapes);
-		rep.bound = "sizes 1..64, 511, 512; all permutations for n<=5; QR shapes: " + shapes;
+		rep.bound = std::string("sizes ") + (A.get("sizes", "full") == "sparse" ? "1..16, 32, 48, 64, 512" : "1..64, 511, 512") + "; all permutations for n<=5 (n<=3 with all shapes); QR shapes: " + shapes;
 	}
 	else if (family == "keys")
 	{
